@@ -51,7 +51,7 @@ pub const ALT_LEG_CHECKS: &[&str] = &["C02", "C03", "C04", "C07", "C08", "C09", 
 pub fn atomics_leg() -> bool {
     std::env::var("SDSIM_LEG").ok().as_deref() == Some("atomics")
 }
-pub const ATOMICS_LEG_CHECKS: &[&str] = &["C14"];
+pub const ATOMICS_LEG_CHECKS: &[&str] = &["C14", "C10"];
 
 fn verif_dir() -> String {
     std::env::var("VERIF_DIR").unwrap_or_else(|_| "/verif".to_string())
